@@ -142,7 +142,11 @@ def expected_flags(f):
 def msg_fields_repo(m):
     if m.data_size != len(m.data):
         raise SizeFieldMismatch("decoded message reports data_size=%d but carries %d payload bytes" % (m.data_size, len(m.data)))
-    return (m.type, m.flags, m.seq, m.serializer_id, bytes(m.data), {k: bytes(v) for k, v in m.annotations.items()}, bytes(m.corr_id))
+    fields = (m.type, m.flags, m.seq, m.serializer_id, bytes(m.data), {k: bytes(v) for k, v in m.annotations.items()}, bytes(m.corr_id))
+    # a decoded message belongs to its consumer, who may update its annotation dictionary in place (the daemon makes it the call context's
+    # annotations, application code adds to those): that must not show in any message decoded later
+    m.annotations["ZZZZ"] = b"written by the consumer of an earlier message"
+    return fields
 
 
 def msg_fields_ref(m):
